@@ -142,8 +142,8 @@ def _copy_of_self_walked(I, pre, n, p1):
         if e.kind != "call" or e.extra.get("name") not in ("iter_mut", "as_mut_slice", "as_mut", "deref_mut"):
             continue
         a0 = e.args[0] if e.args else None
-        if not (isinstance(a0, tuple) and a0 and a0[0] == "ref" and a0[1] == ("field", ("local", n), 0)):
-            continue
+        if not (isinstance(a0, tuple) and a0 and a0[0] == "ref" and a0[1] in (("field", ("local", n), 0), ("local", n))):
+            continue   # (the local is the Bitset, or just its word array: `let mut data = self.data`)
         v = (e.extra.get("argvals") or [None])[0]
         src = isinstance(v, tuple) and v and v[0] == "load" and v[1] == ("m0",) and v[2] in (("field", ("deref", p1), 0), ("field", p1, 0))
         src = src or v == ("proj", 0, p1)
@@ -173,9 +173,34 @@ def _wordwise_semantic(crate, I, b, tr, backs):
                 return "rhs"
             if base[0] == "local":
                 return ("local", base[1])
+            if base[0] == "cell":
+                # a caller's local handed to an inlined helper by &mut (`result.zip_assign(rhs, op)`)
+                return ("cell", base)
         if pl[0] == "local":
             return ("local", pl[1])
         return None
+
+    def cell_is_copy_of_self(mem, cell):
+        """the value copied into the cell when the helper was entered is a copy of self (self.clone(), *self)"""
+        vals = []
+
+        def walk(m):
+            if not isinstance(m, tuple) or not m:
+                return
+            if m[0] == "store" and m[2] == cell:
+                vals.append(m[3])
+            for x in m[1:3] if m[0] in ("store", "after", "mphi") else ():
+                if isinstance(x, tuple) and x and x[0] in ("store", "after", "mphi", "m0"):
+                    walk(x)
+
+        walk(mem)
+        if not vals:
+            return False
+        v = vals[-1]   # the earliest store: the copy-in
+        if isinstance(v, tuple) and v and v[0] == "call" and str(v[1]).endswith("clone"):
+            a_ = [x for x in v[2] if not (isinstance(x, tuple) and x and x[0] == "mem")]
+            v = ("load", ("m0",), a_[0][1]) if a_ and a_[0][0] == "ref" else v
+        return v in (("load", ("m0",), ("deref", p1)), p1)
 
     verdict = True
     desc = ""
@@ -234,7 +259,23 @@ def _wordwise_semantic(crate, I, b, tr, backs):
         body = evs[li:]
         wops = [e for e in body if e.kind == "call" and (e.extra.get("trait") or "").split("::")[-1] in ("BitAnd", "BitOr", "BitXor", "BitAndAssign", "BitOrAssign", "BitXorAssign")]
         stores = [e for e in body if e.kind == "store"]
-        if tr.endswith("Assign"):
+        base_op = tr[: -len("Assign")] if tr.endswith("Assign") else tr
+        prim = [e for e in stores if isinstance(e.val, tuple) and e.val and e.val[0] == "bin" and e.val[1] == base_op] if not wops and tr != "Not" else []
+        if prim:
+            # the word operator applied as the primitive `a & b` (a closure |a, b| a & b handed to a helper):
+            # dest[k] = self.data[k] OP rhs.data[k]
+            ok = len(prim) == 1 and len(stores) == 1
+            if ok:
+                e_ = prim[0]
+                d, l_, r_ = pos_of(e_.place), val_pos(e_.val[2]), val_pos(e_.val[3])
+                if tr.endswith("Assign"):
+                    ok = d == "self" and l_ == "self" and r_ == "rhs"
+                else:
+                    same_dest = d is not None and d == l_
+                    copy = isinstance(d, tuple) and ((d[0] == "cell" and cell_is_copy_of_self(e_.state[1], d[1])) or (d[0] == "local" and _copy_of_self_walked(I, evs[:li], d[1], p1)))
+                    ok = r_ == "rhs" and ((same_dest and copy) or (l_ == "self" and d is not None))
+            desc = "dest[k] = self.data[k] %s rhs.data[k] at every position k (primitive word operator)" % base_op
+        elif tr.endswith("Assign"):
             ok = len(wops) == 1 and (wops[0].extra.get("trait") or "").split("::")[-1] == tr and not stores
             if ok:
                 d, r_ = val_pos(wops[0].args[0]), val_pos(wops[0].args[1])
@@ -364,7 +405,8 @@ def _wordwise_alt(crate, I, b, tr, backs):
                         stores = [e for e in fs.event_list() if e.kind == "store"]
                         ok = ok and len(stores) == 1 and stores[0].place == w and stores[0].val[0] == "un" and stores[0].val[1] == "Not" and stores[0].val[2][0] == "load" and stores[0].val[2][2] == w
             ret = util.ret_term(st)
-            ok = ok and isinstance(ret, tuple) and ret and ((ret[0] == "load" and util.cell_origin(evs_, ret[2]) == ("local", 1)) or ret in (p1, ("out", fe[0].extra.get("uid"), 1)))
+            uids_ = {e.extra.get("uid") for e in evs_ if e.kind == "call" and e.extra.get("name") in ("iter_mut", "for_each")}
+            ok = ok and isinstance(ret, tuple) and ret and ((ret[0] == "load" and util.cell_origin(evs_, ret[2]) == ("local", 1)) or ret == p1 or (ret[0] == "out" and ret[1] in uids_ and ret[2] == 1))
             return ok, "every word complemented in place (iter_mut().for_each)"
     # --- Not as data.map(|w| !w)
     if tr == "Not" and not backs:
@@ -498,17 +540,40 @@ def check(col, prog, tier, profile, fixture=None):
         for e in st.event_list():
             if e.kind == "store" and e.place[0] == "field" and e.place[1] == selfp_i:
                 idx_fields.add(e.place[2])
-    for st in [s_ for l in I.backedge_states.values() for s_ in l]:
-        for e in st.event_list():
-            if e.kind != "store" or not (e.place[0] == "field" and e.place[1] == selfp_i):
+    def cval(t):
+        """value of a constant usize expression (`!(WORD_BITS - 1)`), modulo 2^64"""
+        if not isinstance(t, tuple) or not t:
+            return None
+        if t[0] == "int":
+            return t[1] % (1 << 64)
+        if t[0] == "un" and t[1] == "Not":
+            x = cval(t[2])
+            return None if x is None else (~x) % (1 << 64)
+        if t[0] == "bin" and t[1] in ("Sub", "Add", "Mul", "Shl"):
+            x, y = cval(t[2]), cval(t[3])
+            if x is None or y is None:
+                return None
+            return {"Sub": x - y, "Add": x + y, "Mul": x * y, "Shl": x << (y % 64)}[t[1]] % (1 << 64)
+        return None
+
+    for hd_, sts_ in I.backedge_states.items():
+      for st in sts_:
+        # the cursor may live in the field throughout, or in a local for the duration of the loop
+        steps = [(e.val, I.load(e.state[1], e.place)) for e in st.event_list() if e.kind == "store" and e.place[0] == "field" and e.place[1] == selfp_i]
+        for ent in I.loop_entry.get(hd_, []):
+            for l_, v0 in ent.items():
+                if isinstance(v0, tuple) and v0 and v0[0] == "load" and v0[2][0] == "field" and v0[2][1] == selfp_i and st.env.get(l_) not in (None, ("phi", I.uid(hd_), l_)):
+                    steps.append((st.env.get(l_), ("phi", I.uid(hd_), l_)))
+        for v, old in steps:
+            if not isinstance(v, tuple):
                 continue
-            v = e.val
-            old = I.load(e.state[1], e.place)
             # next word boundary: (idx + 64) & !63   or   (idx / 64 + 1) * 64
-            form1 = v[0] == "bin" and v[1] == "BitAnd" and v[3] in (("un", "Not", mk_int(63)), mk_int(~63), mk_int((1 << 64) - 64)) and v[2] == ("bin", "Add", old, mk_int(64))
+            form1 = v[0] == "bin" and v[1] == "BitAnd" and (v[3] in (("un", "Not", mk_int(63)), mk_int(~63), mk_int((1 << 64) - 64)) or cval(v[3]) == (1 << 64) - 64) and v[2] == ("bin", "Add", old, mk_int(64))
             form2 = v[0] == "bin" and v[1] == "Mul" and mk_int(64) in (v[2], v[3]) and any(x == ("bin", "Add", ("bin", "Div", old, mk_int(64)), mk_int(1)) or x == ("bin", "Add", ("bin", "Shr", old, mk_int(6)), mk_int(1)) for x in (v[2], v[3]))
             if form1 or form2:
                 zero = any(f[0] == "eq" and isinstance(f[1], tuple) and f[1][0] == "bin" and ((f[1][1] == "Eq" and f[2] == 1) or (f[1][1] == "Ne" and f[2] == 0)) and f[1][3] == mk_int(0) and f[1][2][0] == "bin" and f[1][2][1] == "Shr" for f in st.facts)
+                # `match self.pending() { 0 => .. }`: the switch is on the shifted word itself
+                zero = zero or any(f[0] == "eq" and f[2] == 0 and not isinstance(f[2], bool) and isinstance(f[1], tuple) and f[1] and f[1][0] == "bin" and f[1][1] == "Shr" for f in st.facts)
                 okskip = okskip or zero
     for st in I.final_states:
         r = util.ret_term(st)
